@@ -267,6 +267,21 @@ class Calls:
         pre_state = st.clone() if decl.get("modifies") or any("old(" in c.text for c in decl.get("ensures")) else st
         for cl in decl.get("modifies"):
             self.havoc_modifies(st, cl, names, fn, decl)
+        if decl.get("modifies") and fn is not None and fn.get("recv") and args and isinstance(args[0], PtrV):
+            # the callee returns with its receiver's data-structure invariants re-established (proved on the callee: inv[...])
+            rt = self.ir.types[self.ir.under(fn["params"][0]["type"])].get("elem")
+            dti = self.type_invs.get(rt)
+            if dti is not None:
+                try:
+                    selfv = st.load(args[0])
+                    held = [h[4] for h in st.held if h[3] == rt]
+                    for icl in dti.clauses:
+                        if icl.kind == "invariant" and icl.ast is not None and icl.extra.get("lock") not in held:
+                            ictx = SpecCtx(self, st, st, {"self": selfv}, fr_pkg=dti.pkg)
+                            ictx.pol = -1
+                            st.assume(to_bool(ictx.eval(icl.ast)))
+                except (Unsupported, Exception):
+                    pass
         ctx2 = SpecCtx(self, st, pre_state, rn, fr_pkg=(fn["pkg"] if fn else decl.pkg))
         ctx2.name_types = ntypes
         ctx2.pol = -1
